@@ -1,10 +1,10 @@
 import Posmint.Lemmas.ChainTx
-import Posmint.Lemmas.ChainTx
+import Posmint.Lemmas.ParseGov
 /-!
 # C17 — Governance: only the listed owner changes a parameter or moves DAO funds
 -/
 namespace Posmint.Props.C17
-open Posmint.Chain Posmint.Chain.ChainTx
+open Posmint.Chain Posmint.Chain.ChainTx Posmint.Chain.ParseGov
 
 /-- the governance-controlled part of the state -/
 def govOf (s : State) : Params × List (String × Addr) × Addr × (Int × String) := (s.p, s.acl, s.daoOwner, s.upgrade)
@@ -254,6 +254,120 @@ theorem acl_drop (s : State) (val k : String) (hp : parseAcl val = some (aclDrop
   · intro k' hk
     show s'.acl.lookup k' = _
     rw [h]; exact lookup_aclDrop_other _ _ _ hk
+
+/-! ### the decoder accepts every list in its canonical encoding -/
+
+/-- the canonical amino JSON of one entry -/
+def encodeAclEntry (e : String × Addr) : List Char :=
+  "{\"acl_key\":\"".toList ++ e.1.toList ++ "\",\"address\":\"".toList ++ e.2.toList ++ "\"}".toList
+
+/-- entries separated by commas -/
+def encodeAclEntries : List (String × Addr) → List Char
+  | [] => []
+  | [e] => encodeAclEntry e
+  | e :: rest => encodeAclEntry e ++ [','] ++ encodeAclEntries rest
+
+/-- the canonical amino JSON of an access-control list, as the parameter store holds it -/
+def encodeAcl (l : List (String × Addr)) : String :=
+  String.ofList ("{\"type\":\"gov/non_map_acl\",\"value\":[".toList ++ encodeAclEntries l ++ "]}".toList)
+
+theorem encodeAclEntry_append (e : String × Addr) (tail : List Char) :
+    encodeAclEntry e ++ tail =
+      "{\"acl_key\":\"".toList ++ (e.1.toList ++ '"' :: (",\"address\":\"".toList ++
+        (e.2.toList ++ '"' :: '}' :: tail))) := by
+  unfold encodeAclEntry
+  rw [address_literal, close_literal]
+  simp only [List.append_assoc, List.cons_append, List.nil_append]
+
+theorem encodeAclEntries_cons_head (e : String × Addr) (l : List (String × Addr)) (x : List Char) :
+    ∃ t, encodeAclEntries (e :: l) ++ x = '{' :: t := by
+  have h1 : ∀ y, ∃ t, encodeAclEntry e ++ y = '{' :: t := fun y => ⟨_, by rw [encodeAclEntry_append]; rfl⟩
+  cases l with
+  | nil => exact h1 x
+  | cons e' l' =>
+    show ∃ t, (encodeAclEntry e ++ [','] ++ encodeAclEntries (e' :: l')) ++ x = '{' :: t
+    rw [List.append_assoc, List.append_assoc]
+    exact h1 _
+
+theorem length_le_encodeAclEntries : ∀ l : List (String × Addr), l.length ≤ (encodeAclEntries l).length
+  | [] => Nat.le_refl _
+  | [e] => by
+    obtain ⟨t, ht⟩ := encodeAclEntries_cons_head e [] []
+    rw [List.append_nil] at ht
+    rw [ht]; simp
+  | e :: e' :: l' => by
+    have ih := length_le_encodeAclEntries (e' :: l')
+    show _ ≤ (encodeAclEntry e ++ [','] ++ encodeAclEntries (e' :: l')).length
+    simp only [List.length_append, List.length_cons, List.length_nil] at ih ⊢
+    omega
+
+/-- the entries of a non-empty list, followed by the closing `]}`, are read back; one unit of fuel an entry -/
+theorem parseAclEntries_encode : ∀ (l : List (String × Addr)), l ≠ [] →
+    (∀ e ∈ l, '"' ∉ e.1.toList) → (∀ e ∈ l, aclOwnerOK e.2.toList = true) →
+    ∀ fuel, l.length ≤ fuel → parseAclEntries fuel (encodeAclEntries l ++ "]}".toList) = some l
+  | [], hne, _, _, _, _ => absurd rfl hne
+  | [e], _, hk, ho, fuel, hf => by
+    cases fuel with
+    | zero => simp at hf
+    | succ f =>
+      show parseAclEntries (f + 1) (encodeAclEntry e ++ "]}".toList) = _
+      rw [encodeAclEntry_append]
+      have := parseAclEntries_last f e.1.toList e.2.toList (hk e List.mem_cons_self) (ho e List.mem_cons_self)
+      rw [String.ofList_toList, String.ofList_toList] at this
+      exact this
+  | e :: e' :: l', _, hk, ho, fuel, hf => by
+    cases fuel with
+    | zero => simp at hf
+    | succ f =>
+      show parseAclEntries (f + 1) (encodeAclEntry e ++ [','] ++ encodeAclEntries (e' :: l') ++ "]}".toList) = _
+      rw [List.append_assoc, List.append_assoc, encodeAclEntry_append]
+      have := parseAclEntries_more f e.1.toList e.2.toList (encodeAclEntries (e' :: l') ++ "]}".toList)
+        (hk e List.mem_cons_self) (ho e List.mem_cons_self)
+      rw [String.ofList_toList, String.ofList_toList] at this
+      rw [List.singleton_append, this,
+        parseAclEntries_encode (e' :: l') (List.cons_ne_nil _ _)
+          (fun x hx => hk x (List.mem_cons_of_mem _ hx)) (fun x hx => ho x (List.mem_cons_of_mem _ hx)) f
+          (by simp only [List.length_cons] at hf ⊢; omega)]
+      rfl
+
+/-- Every access-control list - any number of entries, any keys without a double quote, every owner an address or
+empty - is decoded from its canonical encoding to itself: the hypothesis `parseAcl val = some l` of `acl_replace`,
+`acl_handover` and `acl_drop` is met by the encoding of every such `l`. -/
+theorem parseAcl_encodeAcl (l : List (String × Addr))
+    (hk : ∀ e ∈ l, '"' ∉ e.1.toList) (ho : ∀ e ∈ l, aclOwnerOK e.2.toList = true) :
+    parseAcl (encodeAcl l) = some l := by
+  unfold parseAcl encodeAcl
+  rw [String.toList_ofList (l := _ ++ _), List.append_assoc, stripPrefix_append, Option.bind_some]
+  cases l with
+  | nil => rfl
+  | cons e l' =>
+    obtain ⟨t, ht⟩ := encodeAclEntries_cons_head e l' "]}".toList
+    have hne : (encodeAclEntries (e :: l') ++ "]}".toList == [']', '}']) = false := by
+      rw [ht]; rfl
+    rw [hne]
+    simp only [Bool.false_eq_true, ↓reduceIte]
+    have hlen : (e :: l').length ≤ (encodeAclEntries (e :: l') ++ "]}".toList).length := by
+      rw [List.length_append]
+      exact Nat.le_trans (length_le_encodeAclEntries _) (Nat.le_add_right _ _)
+    exact parseAclEntries_encode (e :: l') (List.cons_ne_nil _ _) hk ho _ hlen
+
+/-- the upgrade plan likewise -/
+def encodeUpgrade (h : Nat) (ver : String) : String :=
+  String.ofList ("{\"type\":\"gov/upgrade\",\"value\":{\"Height\":\"".toList ++ (toString h).toList ++
+    "\",\"Version\":\"".toList ++ ver.toList ++ "\"}}".toList)
+
+theorem parseUpgrade_encodeUpgrade (h : Nat) (ver : String) (hv : '"' ∉ ver.toList) :
+    parseUpgrade (encodeUpgrade h ver) = some ((h : Int), ver) := by
+  unfold parseUpgrade encodeUpgrade
+  have h1 : "\",\"Version\":\"".toList = '"' :: ",\"Version\":\"".toList := by decide
+  have h2 : "\"}}".toList = ['"', '}', '}'] := by decide
+  rw [String.toList_ofList (l := _ ++ _), Nat.toString_eq_repr, Nat.toList_repr, h1, h2]
+  simp only [List.append_assoc, List.cons_append]
+  rw [stripPrefix_append, Option.bind_some, untilQuote_append _ _ (quote_not_mem_toDigits h), Option.bind_some]
+  simp only
+  rw [stripPrefix_append, Option.bind_some, untilQuote_append _ _ hv, Option.bind_some]
+  simp only [bne_self_eq_false, Bool.false_eq_true, ↓reduceIte]
+  rw [digitsToInt_toDigits, Option.map_some, String.ofList_toList]
 
 set_option maxRecDepth 20000 in
 /-- a stale list re-installed (a replayed or late transaction): the owner of `gov/upgrade` goes back to what that
